@@ -75,6 +75,11 @@ def _same_default(v, s):
             w = eval(v[3:-3], _ns())
         except Exception as e:  # noqa
             return False, "quoted default %r does not evaluate (%s)" % (v, type(e).__name__)
+        import types
+        if isinstance(s, types.FunctionType) and isinstance(w, types.FunctionType):   # lambdas: same code
+            same = (w.__code__.co_code, w.__code__.co_consts, w.__code__.co_names) == \
+                   (s.__code__.co_code, s.__code__.co_consts, s.__code__.co_names)
+            return same, "quoted default %r is a different function from the signature's" % (v,)
         return (type(w) is type(s) and w == s), "quoted default %r evaluates to %r, signature has %r" % (v, w, s)
     ok = type(v) is type(s) and (repr(v) == repr(s) if isinstance(v, float) else v == s)
     return ok, "signature default %r reported as %r" % (s, v)
